@@ -27,6 +27,23 @@ pub struct Gen {
     pub origins:       bool,
     /// weight of "start with the buffer almost full / full" prefills
     pub prefill:       bool,
+    /// an extra thread calls `cancel_all_streams()` at a generated point
+    pub canceller:     bool,
+    /// listeners may join late (created by their own thread during the run) and / or leave early (dropped after n items)
+    pub churn:         bool,
+    /// consumers clone handles / convert unique handles into shared ones before releasing them
+    pub handles:       bool,
+    /// producers use split async sends (begin ... other operations ... resume) and length queries; suspended sends may never be resumed
+    pub async_ops:     bool,
+    /// minimum number of consumers
+    pub min_consumers: usize,
+}
+
+impl Default for Gen {
+    fn default() -> Self {
+        Gen { kinds: &UNI_KINDS, max_streams: &[1, 2, 4], buffers: &[2, 4, 8], max_producers: 3, max_ops: 3, max_consumers: 3, retry: false, fresh_wakers: false,
+              origins: false, prefill: false, canceller: false, churn: false, handles: false, async_ops: false, min_consumers: 1 }
+    }
 }
 
 /// number of events a script may try to send
@@ -48,6 +65,20 @@ pub fn sanitize(mut c: ChanCase) -> ChanCase {
                 POp::Reserve | POp::SendOldestReserved | POp::CancelNewestReserved if !kind.has_reserve() => POp::Pause(1),
                 other => other,
             };
+        }
+    }
+    if kind == ChanKind::UniMoveAtomic {
+        // documented restriction: no plain send while the calling thread has a reservation outstanding
+        for p in c.producers.iter_mut() {
+            let mut outstanding = 0i32;
+            for op in p.iter_mut() {
+                match *op {
+                    POp::Reserve => outstanding += 1,
+                    POp::SendOldestReserved | POp::CancelNewestReserved => outstanding = (outstanding - 1).max(0),
+                    POp::Send(_) | POp::SendRetry(_) | POp::AsyncBegin(_) if outstanding > 0 => *op = POp::Pause(1),
+                    _ => {},
+                }
+            }
         }
     }
     c.consumers.truncate(c.max_streams as usize);
@@ -80,25 +111,43 @@ pub fn case_strategy(g: Gen) -> BoxedStrategy<ChanCase> {
     (config_strategy(g.kinds, g.max_streams, g.buffers), origin)
         .prop_flat_map(move |((kind, b, m), origin)| {
             let entry = entry_strategy(kind);
-            let op = if g.retry {
-                prop_oneof![3 => entry.clone().prop_map(POp::Send), 2 => entry.prop_map(POp::SendRetry)].boxed()
-            } else {
-                entry.prop_map(POp::Send).boxed()
-            };
-            let producers = vec(vec(op, 1..=g.max_ops), 1..=g.max_producers);
+            let mut ops: Vec<(u32, BoxedStrategy<POp>)> = vec![(6, entry.clone().prop_map(POp::Send).boxed())];
+            if g.retry { ops.push((4, entry.prop_map(POp::SendRetry).boxed())); }
+            if g.async_ops {
+                if kind.has_async() { ops.push((5, (1u8..4).prop_map(POp::AsyncBegin).boxed())); ops.push((4, Just(POp::AsyncPoll).boxed())); }
+                ops.push((1, Just(POp::Len).boxed()));
+                if kind.has_reserve() { ops.push((1, Just(POp::Reserve).boxed())); ops.push((1, Just(POp::SendOldestReserved).boxed())); }
+            }
+            let op = proptest::strategy::Union::new_weighted(ops);
+            let mut producers = vec(vec(op, 1..=g.max_ops), 1..=g.max_producers).boxed();
+            if g.canceller {
+                producers = (producers, 0u8..12).prop_map(|(mut p, pause)| { p.push(vec![POp::Pause(pause), POp::CancelAll]); p }).boxed();
+            }
             let fresh = if g.fresh_wakers { vec(0u8..5, 0..2).boxed() } else { Just(vec![]).boxed() };
-            let consumer = (0u8..3, fresh).prop_map(|(hold, fresh_waker_at)| Consumer { hold, fresh_waker_at, ..Default::default() });
-            let consumers = vec(consumer, 1..=(m as usize).min(g.max_consumers));
+            let churn = g.churn;
+            let handles = g.handles;
+            let consumer = (0u8..3, fresh, any::<u8>(), 1u8..4, any::<u8>()).prop_map(move |(hold, fresh_waker_at, c, n, h)| Consumer {
+                hold, fresh_waker_at,
+                create_late: churn && c % 3 == 1,
+                stop_after: if churn && c % 3 == 2 { Some(n) } else { None },
+                clone_handle: handles && h & 1 == 1,
+                into_shared: handles && h & 2 == 2,
+                max_items: None,
+            });
+            let lo = g.min_consumers.min(m as usize).max(1);
+            let hi = (m as usize).min(g.max_consumers).max(lo);
+            let consumers = vec(consumer, lo..=hi);
             let prefill = if g.prefill { prop_oneof![3 => Just(0u8), 1 => Just(1u8), 1 => Just(b - 1), 1 => Just(b), 1 => 0..=b].boxed() } else { Just(0u8).boxed() };
-            (Just((kind, b, m, origin)), producers, consumers, prefill)
+            let finish_async = if g.async_ops { any::<bool>().boxed() } else { Just(true).boxed() };
+            (Just((kind, b, m, origin)), producers, consumers, prefill, finish_async)
         })
-        .prop_flat_map(|(cfg, producers, consumers, prefill)| {
+        .prop_flat_map(|(cfg, producers, consumers, prefill, finish_async)| {
             let n = producers.len() + consumers.len();
             let est: u32 = producers.iter().map(|p| p.len() as u32 * 14).sum::<u32>() + consumers.len() as u32 * 24 + 10;
-            (Just(cfg), Just(producers), Just(consumers), Just(prefill), sparse_or_any_schedule(n, est))
+            (Just(cfg), Just(producers), Just(consumers), Just(prefill), Just(finish_async), sparse_or_any_schedule(n, est))
         })
-        .prop_map(|((kind, buffer, max_streams, origin), producers, consumers, prefill, schedule)| {
-            sanitize(ChanCase { kind, buffer, max_streams, origin, prefill, producers, consumers, finish_async: true, schedule })
+        .prop_map(|((kind, buffer, max_streams, origin), producers, consumers, prefill, finish_async, schedule)| {
+            sanitize(ChanCase { kind, buffer, max_streams, origin, prefill, producers, consumers, finish_async, leftovers: false, schedule })
         })
         .boxed()
 }
@@ -188,6 +237,9 @@ pub fn entry_name(e: Entry) -> &'static str {
 pub fn judge_fifo_uni(case: &ChanCase, run: &ChanRun) -> Option<(String, String)> {
     let k = case.kind.short();
     let cap = case.buffer as usize;
+    if run.prefill_rejected {
+        return Some((format!("{k}/spurious-full"), format!("a freshly created channel rejected send #{} of {} (BUFFER_SIZE {cap}) with nothing consumed yet", run.prefill.len() + 1, case.prefill)));
+    }
     let mut ops: Vec<Op> = vec![];
     for s in &run.sends {
         if s.unfinished || s.cancelled { continue; }
@@ -307,6 +359,13 @@ pub fn finish(case: &ChanCase, run: &ChanRun, mut classes: Vec<String>, nontrivi
         let nt = matches!(v, Verdict::Violation { .. });
         return RunReport { verdict: v, nontrivial: nt, classes, fingerprint: fp, trace: Some(run.trace.clone()), summary };
     }
+    if run.prefill_rejected {
+        // the scenario's precondition did not hold (an empty channel rejected one of fewer than BUFFER_SIZE sends): that is C02 / C16 material
+        let strict = judged.as_ref().map(|(s, _)| s.contains("spurious-full")).unwrap_or(false);
+        if !strict {
+            return RunReport { verdict: Verdict::Inconclusive("prefill-rejected".into()), nontrivial: false, classes, fingerprint: fp, trace: Some(run.trace.clone()), summary };
+        }
+    }
     if run.sends.iter().any(|s| !s.accepted && !s.unfinished && !s.cancelled) { classes.push("rejected-send".into()); }
     if run.polls.iter().any(|p| !p.drain && p.res == PollRes::Pending) { classes.push("parked".into()); }
     if run.inside > 0 { classes.push("overlap".into()); }
@@ -324,11 +383,11 @@ impl Property for C01Uni {
     type Case = ChanCase;
     fn part(&self) -> &'static str { "uni-delivery-sched" }
     fn strategy(&self, _tier: Tier) -> BoxedStrategy<ChanCase> {
-        case_strategy(Gen { kinds: &UNI_KINDS, max_streams: &[1, 2, 4], buffers: &[2, 4, 8], max_producers: 3, max_ops: 4, max_consumers: 3, retry: true, fresh_wakers: false, origins: true, prefill: true })
+        case_strategy(Gen { kinds: &UNI_KINDS, max_streams: &[1, 2, 4], buffers: &[2, 4, 8], max_producers: 3, max_ops: 4, max_consumers: 3, retry: true, fresh_wakers: false, origins: true, prefill: true, ..Default::default() })
     }
     fn cases(&self, tier: Tier) -> u32 { match tier { Tier::Quick => 6_000, Tier::Thorough => 150_000 } }
     fn run(&self, case: &ChanCase) -> RunReport {
-        let run = execute(case, Epilogue { drain: true, capacity_probe: false });
+        let run = execute(case, Epilogue { drain: true, ..Default::default() });
         let judged = if run.end == EndState::Completed { judge_delivery_uni(case, &run) } else { None };
         let nontrivial = run.inside > 0 || run.sends.iter().any(|s| !s.accepted);
         finish(case, &run, base_classes(case), nontrivial, judged)
@@ -347,11 +406,11 @@ impl Property for C02Uni {
     type Case = ChanCase;
     fn part(&self) -> &'static str { "uni-fifo-sched" }
     fn strategy(&self, _tier: Tier) -> BoxedStrategy<ChanCase> {
-        case_strategy(Gen { kinds: &UNI_KINDS, max_streams: &[1, 2, 4], buffers: &[2, 4], max_producers: 3, max_ops: 3, max_consumers: 3, retry: false, fresh_wakers: false, origins: true, prefill: true })
+        case_strategy(Gen { kinds: &UNI_KINDS, max_streams: &[1, 2, 4], buffers: &[2, 4], max_producers: 3, max_ops: 3, max_consumers: 3, retry: false, fresh_wakers: false, origins: true, prefill: true, ..Default::default() })
     }
     fn cases(&self, tier: Tier) -> u32 { match tier { Tier::Quick => 6_000, Tier::Thorough => 150_000 } }
     fn run(&self, case: &ChanCase) -> RunReport {
-        let run = execute(case, Epilogue { drain: true, capacity_probe: false });
+        let run = execute(case, Epilogue { drain: true, ..Default::default() });
         let judged = if run.end == EndState::Completed { judge_fifo_uni(case, &run) } else { None };
         let neg = run.sends.iter().any(|s| !s.accepted) || run.polls.iter().any(|p| !p.drain && p.res == PollRes::Pending);
         finish(case, &run, base_classes(case), run.inside > 0 && neg, judged)
@@ -370,11 +429,11 @@ impl Property for C04Uni {
     type Case = ChanCase;
     fn part(&self) -> &'static str { "uni-wakeup-sched" }
     fn strategy(&self, _tier: Tier) -> BoxedStrategy<ChanCase> {
-        case_strategy(Gen { kinds: &UNI_KINDS, max_streams: &[1, 2], buffers: &[2, 4, 8], max_producers: 3, max_ops: 3, max_consumers: 2, retry: true, fresh_wakers: true, origins: false, prefill: true })
+        case_strategy(Gen { kinds: &UNI_KINDS, max_streams: &[1, 2], buffers: &[2, 4, 8], max_producers: 3, max_ops: 3, max_consumers: 2, retry: true, fresh_wakers: true, origins: false, prefill: true, ..Default::default() })
     }
     fn cases(&self, tier: Tier) -> u32 { match tier { Tier::Quick => 8_000, Tier::Thorough => 200_000 } }
     fn run(&self, case: &ChanCase) -> RunReport {
-        let run = execute(case, Epilogue { drain: true, capacity_probe: false });
+        let run = execute(case, Epilogue { drain: true, ..Default::default() });
         let judged = if run.end == EndState::Completed { judge_wakeup_uni(case, &run) } else { None };
         // the consumer parked at least once while a send was in progress
         let nontrivial = run.polls.iter().any(|p| !p.drain && p.res == PollRes::Pending && run.sends.iter().any(|s| s.call < p.ret && p.call < s.ret));
@@ -411,7 +470,7 @@ pub fn judge_delivery_multi(case: &ChanCase, run: &ChanRun) -> Option<(String, S
     for ci in 0..run.consumers.len() {
         let polls: Vec<&PollRec> = run.polls.iter().filter(|p| p.consumer as usize == ci).collect();
         let mut seen: BTreeMap<u64, u32> = BTreeMap::new();
-        let mut last: HashMap<u8, u32> = HashMap::new();
+        let mut last: HashMap<u8, (u32, u64)> = HashMap::new();
         for p in &polls {
             if let PollRes::Item { val, intact, addr } = p.res {
                 if !intact || payload::decode(val).is_none() {
@@ -422,9 +481,14 @@ pub fn judge_delivery_multi(case: &ChanCase, run: &ChanRun) -> Option<(String, S
                     return Some((format!("{k}/{what}"), format!("listener {ci} yielded {} which was never accepted; history: {}", payload::show(val), run.render())));
                 }
                 *seen.entry(val).or_insert(0) += 1;
+                // a producer's send order: A before B iff A's send had returned before B's was called (split async sends overlap)
                 let (prod, seq) = payload::decode(val).unwrap();
-                if let Some(prev) = last.get(&prod) { if *prev > seq { return Some((format!("{k}/producer-order"), format!("listener {ci} yielded p{prod}#{seq} after p{prod}#{prev}; history: {}", run.render()))); } }
-                last.insert(prod, seq);
+                let my_call = f.accepted.get(&val).copied().flatten().map(|s| s.call).unwrap_or(0);
+                let my_ret = f.accepted.get(&val).copied().flatten().map(|s| s.ret).unwrap_or(0);
+                if let Some((prev_seq, prev_call)) = last.get(&prod) { if my_ret < *prev_call { return Some((format!("{k}/producer-order"), format!("listener {ci} yielded p{prod}#{seq} after p{prod}#{prev_seq} although it was sent (and its send had returned) before; history: {}", run.render()))); } }
+                let _ = seq;
+                let e = last.entry(prod).or_insert((seq, my_call));
+                if my_call >= e.1 { *e = (seq, my_call); }
                 if !case.kind.is_mmap() || true {
                     match addr_of.get(&val) {
                         Some((a, other)) if *a != addr => return Some((format!("{k}/not-the-same-allocation"), format!("listeners {other} and {ci} observed {} at different addresses ({a:#x} vs {addr:#x}); history: {}", payload::show(val), run.render()))),
@@ -473,11 +537,11 @@ impl Property for C03Multi {
     type Case = ChanCase;
     fn part(&self) -> &'static str { "multi-fanout-sched" }
     fn strategy(&self, _tier: Tier) -> BoxedStrategy<ChanCase> {
-        case_strategy(Gen { kinds: &MULTI_KINDS, max_streams: &[1, 2, 4], buffers: &[2, 4, 8], max_producers: 3, max_ops: 3, max_consumers: 3, retry: true, fresh_wakers: false, origins: true, prefill: true })
+        case_strategy(Gen { kinds: &MULTI_KINDS, max_streams: &[1, 2, 4], buffers: &[2, 4, 8], max_producers: 3, max_ops: 3, max_consumers: 3, retry: true, fresh_wakers: false, origins: true, prefill: true, ..Default::default() })
     }
     fn cases(&self, tier: Tier) -> u32 { match tier { Tier::Quick => 6_000, Tier::Thorough => 120_000 } }
     fn run(&self, case: &ChanCase) -> RunReport {
-        let run = execute(case, Epilogue { drain: true, capacity_probe: false });
+        let run = execute(case, Epilogue { drain: true, ..Default::default() });
         let judged = if run.end == EndState::Completed { judge_delivery_multi(case, &run) } else { None };
         let nontrivial = run.inside > 0 && (case.consumers.len() >= 2 || case.producers.len() >= 2);
         let mut classes = base_classes(case);
@@ -497,11 +561,11 @@ impl Property for C04Multi {
     type Case = ChanCase;
     fn part(&self) -> &'static str { "multi-wakeup-sched" }
     fn strategy(&self, _tier: Tier) -> BoxedStrategy<ChanCase> {
-        case_strategy(Gen { kinds: &MULTI_KINDS, max_streams: &[1, 2], buffers: &[2, 4, 8], max_producers: 3, max_ops: 3, max_consumers: 2, retry: true, fresh_wakers: true, origins: false, prefill: true })
+        case_strategy(Gen { kinds: &MULTI_KINDS, max_streams: &[1, 2], buffers: &[2, 4, 8], max_producers: 3, max_ops: 3, max_consumers: 2, retry: true, fresh_wakers: true, origins: false, prefill: true, ..Default::default() })
     }
     fn cases(&self, tier: Tier) -> u32 { match tier { Tier::Quick => 6_000, Tier::Thorough => 150_000 } }
     fn run(&self, case: &ChanCase) -> RunReport {
-        let run = execute(case, Epilogue { drain: true, capacity_probe: false });
+        let run = execute(case, Epilogue { drain: true, ..Default::default() });
         let judged = if run.end == EndState::Completed { judge_wakeup_multi(case, &run) } else { None };
         let nontrivial = run.polls.iter().any(|p| !p.drain && p.res == PollRes::Pending && run.sends.iter().any(|s| s.call < p.ret && p.call < s.ret));
         let mut classes = base_classes(case);
